@@ -118,6 +118,9 @@ def _classify(ctx, items, divs):
         if klass == "violation":
             detail = dict(detail, count=count)
             ctx.violation(sig, detail)
+        elif klass == "refused":
+            # Refusable(rep) of TensorRepr.tla: the library declined to build the representation (a byte-swapped array)
+            ctx.extra["refusable_representations_refused"] = ctx.extra.get("refusable_representations_refused", 0) + count
         elif klass == "adjacent":
             adj = ctx.extra.setdefault("adjacent_findings", {})
             adj[sig] = adj.get(sig, 0) + count
